@@ -139,6 +139,63 @@ def plan_C17(ctx):
     trace_stage(ctx, hs, ["--record", str(n // 2)], "Trace_C17.tla", "Trace_C17.cfg", tag="record-asan")
 
 
+# ----------------------------------------------------------------------------- language layer: C01 C02 C03 C05 C06
+LANG_RULE = ("A: expression trees built by TLC (Gen_Lang): stage 1 = every one-constructor tree over the leaves "
+             "{X1, S1, S2, C1, 1, {} , local a} plus ~4000 feature seeds (filters with both parameter forms, both recursion "
+             "forms, imperative blocks with iterate/assign/guard, tuple-pattern and enumerated binders, calls of plain and "
+             "templated term-functions and a predicate); stage 2 = every wrapping of a stage-1 tree in one more constructor. "
+             "Each tree is rendered from the specification's token sequences (RSSyntax) in 2 parenthesisations x MATH/ASCII x "
+             "spacings, parsed, type-checked and evaluated under 3 interpretations. non-trivial = accepted tree with >= 1 "
+             "operator; distinct = distinct tree. ")
+
+
+def lang_plan(ctx, props, san=False, extra_rule="", syntax=False):
+    b = vcore.build(san=san)
+    h = hbin(b, "h_lang")
+    ctx.rule = LANG_RULE + extra_rule
+    pre = "asan-" if san else ""
+    ctx.constants = {"quick": "Gen_Lang_q (stage 1: one-constructor trees + feature seeds)" + (" + Gen_Syntax (operator triples, constructors, Greek names)" if syntax else ""),
+                     "thorough": "quick + Gen_Lang_m (stage 2 with X1, S1, S2 as siblings: ~1.5M trees)",
+                     "interpretations": 3, "renderings_per_tree": "2 parenthesisations x 2 syntaxes x up to 4 spacings"}
+    if syntax:
+        ctx.replay("Gen_Syntax.tla", "Gen_Syntax.cfg", h, ["--props", ",".join(props)], tag=pre + "Gen_Syntax", timeout=1500, xss="64m")
+    ctx.replay("Gen_Lang.tla", "Gen_Lang_q.cfg", h, ["--props", ",".join(props)], tag=pre + "Gen_Lang_q", timeout=1500, xss="64m", xmx="12g")
+    if not ctx.quick:
+        ctx.replay("Gen_Lang.tla", "Gen_Lang_m.cfg", h, ["--props", ",".join(props)], tag=pre + "Gen_Lang_m", timeout=3400, xss="64m", xmx="12g")
+    ctx.exhaustive = True
+
+
+def plan_C06(ctx):
+    ctx.assumptions = ["token spellings per syntax are a table of the harness transcribed from the two lexer specifications",
+                       "trees are limited to the constructor set of Gen_Lang (no global declarations / function definitions yet)"]
+    lang_plan(ctx, ["C06"], syntax=True, extra_rule="C06 compares the parsed tree with the specification tree and every node range with the span "
+              "of its production; FindMinimalNode must return an innermost node.")
+
+
+def plan_C05(ctx):
+    ctx.assumptions = ["ASCII output is compared modulo the fixed Greek transliteration table (all 25 letters are generated as local names)"]
+    lang_plan(ctx, ["C05"], syntax=True, extra_rule="C05 prints every parsed tree in both syntaxes, re-parses, and converts to the other syntax and back.")
+
+
+def plan_C03(ctx):
+    ctx.assumptions = ["error codes and positions inside the expression are not compared (drift level)",
+                       "value class and declared arguments of function definitions are not yet covered by the generator"]
+    lang_plan(ctx, ["C03"], extra_rule="C03 compares the verdict and the typification string with RSTyping.TypeOf.")
+
+
+def plan_C01(ctx):
+    ctx.assumptions = ["an implementation outcome is admissible iff it equals the kleene value or it is a failure where the strict "
+                       "evaluation fails (RSEval.Admissible); recursions the model cannot finish within its fuel are skipped and counted"]
+    lang_plan(ctx, ["C01"], extra_rule="C01 compares every evaluation outcome with RSEval (strict / kleene).")
+
+
+def plan_C02(ctx):
+    ctx.assumptions = ["type soundness of the rules is model-checked (INVARIANT Sound) on every generated tree; absence of faults is "
+                       "observed in an ASan+UBSan build on the same executions, not proved"]
+    lang_plan(ctx, ["C02"], san=True, extra_rule="C02: INVARIANT Sound on the model; on the implementation no fault, no unknownError, "
+              "truth value iff LOGIC, value deeply compatible with the reported typification.")
+
+
 def save_trace(ctx, trace, prefix, tag=""):
     """keep the prefix of a rejected trace (up to and including the offending event) as the replay artefact"""
     d = os.path.join(vcore.BUILD, "replays")
@@ -158,9 +215,11 @@ PLANS = {
     "C16": plan_C16,
     "C15": plan_C15,
     "C17": plan_C17,
+    "C01": plan_C01, "C02": plan_C02, "C03": plan_C03, "C05": plan_C05, "C06": plan_C06,
 }
 
-HARNESS_OF = {"C14": "h_graph", "C20": "h_strings", "C16": "h_sdcompact", "C15": "h_values", "C17": "h_refs"}
+HARNESS_OF = {"C14": "h_graph", "C20": "h_strings", "C16": "h_sdcompact", "C15": "h_values", "C17": "h_refs",
+              "C01": "h_lang", "C02": "h_lang", "C03": "h_lang", "C05": "h_lang", "C06": "h_lang"}
 TRACE_SPEC_OF = {"C14": ("Trace_C14.tla", "Trace_C14.cfg"), "C20": ("Trace_C20.tla", "Trace_C20.cfg"),
                  "C16": ("Trace_C16.tla", "Trace_C16.cfg"), "C15": ("Trace_C15.tla", "Trace_C15.cfg"),
                  "C17": ("Trace_C17.tla", "Trace_C17.cfg")}
